@@ -1,26 +1,100 @@
 /-
-  C19 — the orchestrator protocol: the invariant of the code as it is (the pass runs under the lock).
+  C19 — the orchestrator protocol: the invariant of the code as it is (the pass runs under the lock),
+  with watcher tasks dying on their own at any time.
 -/
 import Kopf.Model.C19_Orchestrator
 import Kopf.Lemmas.C19_Ensemble
 namespace Kopf.C19.Orch
 open Kopf.C19.Ens
 
+theorem runEvs_append' (e : Ensemble) (a b : List Ev) : runEvs e (a ++ b) = runEvs (runEvs e a) b := by
+  induction a generalizing e with
+  | nil => rfl
+  | cons x xs ih => cases x <;> exact ih _
+
+theorem runEvs_dies (e : Ensemble) (ks : List Key) : runEvs e (ks.map Ev.die) = killMany e ks := by
+  unfold killMany
+  induction ks generalizing e with
+  | nil => rfl
+  | cons k ks ih => exact ih _
+
+theorem killMany_keys (e : Ensemble) (ks : List Key) : (killMany e ks).keys = e.keys := by
+  unfold killMany
+  induction ks generalizing e with
+  | nil => rfl
+  | cons k ks ih => rw [List.foldl_cons, ih, kill_keys]
+
+theorem killMany_append (e : Ensemble) (ks : List Key) (k : Key) :
+    killMany e (ks ++ [k]) = kill (killMany e ks) k := by
+  simp [killMany, List.foldl_append]
+
+theorem kill_of_find {e : Ensemble} {k : Key} {t : Key × Nat}
+    (h : e.watchers.find? (fun t => t.1 == k) = some t) : kill e k = { e with dead := t.2 :: e.dead } := by
+  simp [kill, h]
+
+theorem find_of_mem_keys {e : Ensemble} {k : Key} (h : k ∈ e.keys) :
+    ∃ t, e.watchers.find? (fun t => t.1 == k) = some t := by
+  obtain ⟨i, hi⟩ := mem_keys.mp h
+  cases hf : e.watchers.find? (fun t => t.1 == k) with
+  | none => have := List.find?_eq_none.mp hf (k, i) hi; simp at this
+  | some t => exact ⟨t, rfl⟩
+
+/-- a death and a spawn commute, as long as the dying task exists before the spawn -/
+theorem spawnOne_kill {e : Ensemble} {k : Key} (hk : k ∈ e.keys) (p : Res × Ns) :
+    spawnOne (kill e k) p = kill (spawnOne e p) k := by
+  obtain ⟨t, ht⟩ := find_of_mem_keys hk
+  by_cases h' : dkey p.1 p.2 ∈ e.keys
+  · have h'' : dkey p.1 p.2 ∈ (kill e k).keys := by rw [kill_keys]; exact h'
+    rw [spawnOne_pos h', spawnOne_pos h'']
+  · have h'' : dkey p.1 p.2 ∉ (kill e k).keys := by rw [kill_keys]; exact h'
+    rw [spawnOne_neg h', spawnOne_neg h'', kill_of_find ht]
+    have hf : (e.watchers ++ [(dkey p.1 p.2, e.next)]).find? (fun t => t.1 == k) = some t := by
+      rw [List.find?_append, ht]; rfl
+    rw [kill_of_find (e := { e with watchers := e.watchers ++ [(dkey p.1 p.2, e.next)], next := e.next + 1 }) hf]
+
+theorem spawnOne_keys_mono {e : Ensemble} {k : Key} (hk : k ∈ e.keys) (p : Res × Ns) : k ∈ (spawnOne e p).keys :=
+  spawnOne_keys.mpr (Or.inl hk)
+
+theorem spawn_kill {ps : List (Res × Ns)} {e : Ensemble} {k : Key} (hk : k ∈ e.keys) :
+    spawn (kill e k) ps = kill (spawn e ps) k := by
+  unfold spawn
+  induction ps generalizing e with
+  | nil => rfl
+  | cons p ps ih =>
+      rw [List.foldl_cons, List.foldl_cons, spawnOne_kill hk, ih (spawnOne_keys_mono hk p)]
+
+theorem spawn_killMany {ks : List Key} {ps : List (Res × Ns)} {e : Ensemble} (hk : ∀ k ∈ ks, k ∈ e.keys) :
+    spawn (killMany e ks) ps = killMany (spawn e ps) ks := by
+  induction ks generalizing e with
+  | nil => rfl
+  | cons k ks ih =>
+      have h1 : killMany e (k :: ks) = killMany (kill e k) ks := rfl
+      have h2 : killMany (spawn e ps) (k :: ks) = killMany (kill (spawn e ps) k) ks := rfl
+      rw [h1, h2, ih (e := kill e k) (fun x hx => by rw [kill_keys]; exact hk x (List.mem_cons_of_mem _ hx)),
+        spawn_kill (hk k List.mem_cons_self)]
+
 /-- What holds at each control point when the pass runs under the lock. -/
 def PcInv (s : State) : Prop :=
   match s.pc with
-  | .waiting => s.ens = runHist Ens.empty s.hist ∧ ((s.revs = [] ∧ s.hist = []) ∨ ∃ pre, s.hist = pre ++ [s.ins])
-  | .notified => s.ens = runHist Ens.empty s.hist ∧ s.ins ∈ s.revs
-  | .stopping snap => snap = s.ins ∧ s.ens = runHist Ens.empty s.hist ∧ s.ins ∈ s.revs
-  | .spawning => s.ens = terminate (runHist Ens.empty s.hist) s.ins ∧ s.ins ∈ s.revs
+  | .waiting => s.ens = runEvs Ens.empty s.hist ∧ s.pend = [] ∧
+      ((s.revs = [] ∧ s.hist = []) ∨ ∃ pre, s.hist = pre ++ [.pass s.ins] ++ s.diedSince.map Ev.die)
+  | .notified => s.ens = runEvs Ens.empty s.hist ∧ s.pend = [] ∧ s.ins ∈ s.revs
+  | .stopping | .spawning =>
+      s.ens = killMany (terminate (runEvs Ens.empty s.hist) s.ins) s.pend ∧
+      (∀ k ∈ s.pend, k ∈ (terminate (runEvs Ens.empty s.hist) s.ins).keys) ∧ s.ins ∈ s.revs
 
 structure OInv (s : State) : Prop where
   locked : s.lockedPass = true
-  histIn : ∀ i ∈ s.hist, i ∈ s.revs
+  histIn : ∀ i ∈ s.hist.flatMap Ev.insights, i ∈ s.revs
   pcInv : PcInv s
 
 theorem oinv_init : OInv (init true) :=
-  ⟨rfl, by simp [init], by simp [PcInv, init, runHist]⟩
+  ⟨rfl, by simp [init], by simp [PcInv, init, runEvs]⟩
+
+theorem flatMap_insights_dies (ks : List Key) : (ks.map Ev.die).flatMap Ev.insights = [] := by
+  induction ks with
+  | nil => rfl
+  | cons k ks ih => simp [List.flatMap_cons, Ev.insights, ih]
 
 theorem oinv_step {s s' : State} (h : OInv s) {l : Label} (hs : step s l = some s') : OInv s' := by
   obtain ⟨hl, hh, hp⟩ := h
@@ -33,14 +107,14 @@ theorem oinv_step {s s' : State} (h : OInv s) {l : Label} (hs : step s l = some 
           subst hs
           refine ⟨hl, fun i hi => List.mem_cons_of_mem _ (hh i hi), ?_⟩
           simp only [PcInv, hpc] at hp ⊢
-          exact ⟨hp.1, List.mem_cons_self⟩
+          exact ⟨hp.1, hp.2.1, List.mem_cons_self⟩
       | notified =>
           simp [lockFree, hpc] at hs
           subst hs
           refine ⟨hl, fun i hi => List.mem_cons_of_mem _ (hh i hi), ?_⟩
           simp only [PcInv, hpc] at hp ⊢
-          exact ⟨hp.1, List.mem_cons_self⟩
-      | stopping snap => simp [lockFree, hpc, hl] at hs
+          exact ⟨hp.1, hp.2.1, List.mem_cons_self⟩
+      | stopping => simp [lockFree, hpc, hl] at hs
       | spawning => simp [lockFree, hpc, hl] at hs
   | acquire =>
       simp only [step] at hs
@@ -48,30 +122,88 @@ theorem oinv_step {s s' : State} (h : OInv s) {l : Label} (hs : step s l = some 
       subst hs
       refine ⟨hl, hh, ?_⟩
       simp only [PcInv, hpc] at hp ⊢
-      exact ⟨trivial, hp.1, hp.2⟩
+      obtain ⟨h1, h2, h3⟩ := hp
+      refine ⟨by rw [h2, h1]; rfl, ?_, h3⟩
+      rw [h2]; intro k hk; cases hk
   | termDone =>
       simp only [step] at hs
       cases hpc : s.pc <;> simp [hpc] at hs
       subst hs
       refine ⟨hl, hh, ?_⟩
       simp only [PcInv, hpc] at hp ⊢
-      obtain ⟨h1, h2, h3⟩ := hp
-      exact ⟨by rw [h1, h2], h3⟩
+      exact hp
   | spawnAll =>
       simp only [step] at hs
       cases hpc : s.pc <;> simp [hpc] at hs
       subst hs
       simp only [PcInv, hpc] at hp
-      obtain ⟨h1, h2⟩ := hp
+      obtain ⟨h1, h2, h3⟩ := hp
       refine ⟨hl, ?_, ?_⟩
       · intro i hi
+        simp only [List.flatMap_append, flatMap_insights_dies, List.append_nil, List.flatMap_cons,
+          List.flatMap_nil, Ev.insights] at hi
         rcases List.mem_append.mp hi with hi | hi
         · exact hh i hi
-        · simp at hi; subst hi; exact h2
+        · simp at hi; subst hi; exact h3
       · simp only [PcInv]
-        refine ⟨?_, Or.inr ⟨s.hist, rfl⟩⟩
-        rw [runHist_append, h1]
+        refine ⟨?_, trivial, Or.inr ⟨s.hist, by simp⟩⟩
+        have : s.hist ++ Ev.pass s.ins :: List.map Ev.die s.pend = (s.hist ++ [Ev.pass s.ins]) ++ List.map Ev.die s.pend := by simp
+        rw [h1, spawn_killMany h2, this, runEvs_append', runEvs_append', runEvs_dies]
         rfl
+  | die k =>
+      simp only [step] at hs
+      by_cases hk : s.ens.keys.contains k = true
+      · have hk' : k ∈ s.ens.keys := by simpa using hk
+        simp only [hk, if_true] at hs
+        cases hpc : s.pc with
+        | waiting =>
+            simp [hpc] at hs; subst hs
+            refine ⟨hl, ?_, ?_⟩
+            · intro i hi
+              simp only [List.flatMap_append, List.flatMap_cons, List.flatMap_nil, Ev.insights, List.append_nil] at hi
+              exact hh i hi
+            · simp only [PcInv, hpc] at hp ⊢
+              obtain ⟨h1, h2, h3⟩ := hp
+              refine ⟨by rw [runEvs_append', ← h1]; rfl, h2, ?_⟩
+              rcases h3 with ⟨hr, hh0⟩ | ⟨pre, hpre⟩
+              · exfalso
+                rw [h1, hh0] at hk'
+                simp [runEvs, Ens.empty, Ensemble.keys] at hk'
+              · right
+                exact ⟨pre, by rw [hpre]; simp [List.append_assoc]⟩
+        | notified =>
+            simp [hpc] at hs; subst hs
+            refine ⟨hl, ?_, ?_⟩
+            · intro i hi
+              simp only [List.flatMap_append, List.flatMap_cons, List.flatMap_nil, Ev.insights, List.append_nil] at hi
+              exact hh i hi
+            · simp only [PcInv, hpc] at hp ⊢
+              obtain ⟨h1, h2, h3⟩ := hp
+              exact ⟨by rw [runEvs_append', ← h1]; rfl, h2, h3⟩
+        | stopping =>
+            simp [hpc] at hs; subst hs
+            refine ⟨hl, hh, ?_⟩
+            simp only [PcInv, hpc] at hp ⊢
+            obtain ⟨h1, h2, h3⟩ := hp
+            refine ⟨by rw [killMany_append, ← h1], ?_, h3⟩
+            intro x hx
+            rcases List.mem_append.mp hx with hx | hx
+            · exact h2 x hx
+            · simp at hx; subst hx
+              rw [h1, killMany_keys] at hk'; exact hk'
+        | spawning =>
+            simp [hpc] at hs; subst hs
+            refine ⟨hl, hh, ?_⟩
+            simp only [PcInv, hpc] at hp ⊢
+            obtain ⟨h1, h2, h3⟩ := hp
+            refine ⟨by rw [killMany_append, ← h1], ?_, h3⟩
+            intro x hx
+            rcases List.mem_append.mp hx with hx | hx
+            · exact h2 x hx
+            · simp at hx; subst hx
+              rw [h1, killMany_keys] at hk'; exact hk'
+      · have hk2 : k ∉ s.ens.keys := by simpa using hk
+        simp [hk2] at hs
 
 theorem oinv_run {ls : List Label} {s s' : State} (h : OInv s) (hr : run s ls = some s') : OInv s' := by
   induction ls generalizing s with
@@ -83,5 +215,16 @@ theorem oinv_run {ls : List Label} {s s' : State} (h : OInv s) (hr : run s ls = 
       | some s1 =>
           simp only [hs] at hr
           exact ih (oinv_step h hs) hr
+
+/-- **mechanism lemma**: with the pass under the lock, an observer can revise the insights only while the
+    orchestrator is inside `wait()`, and afterwards the orchestrator is notified. (By construction of the
+    LTS: `revise` needs the lock; the link to the code is the AST tie `pass_under_lock` and the fact that
+    every writer of the insights takes `insights.revised`.) -/
+theorem revise_wakes (ls : List Label) (s s' : State) (ins' : Insights)
+    (hr : run (init true) ls = some s) (hs : step s (.revise ins') = some s') :
+    (s.pc = .waiting ∨ s.pc = .notified) ∧ s'.pc = .notified ∧ s'.ins = ins' := by
+  have hl := (oinv_run oinv_init hr).locked
+  simp only [step] at hs
+  cases hpc : s.pc <;> simp [lockFree, hpc, hl] at hs <;> subst hs <;> simp [hpc]
 
 end Kopf.C19.Orch
